@@ -121,6 +121,23 @@ theorem csv_roundtrip (delim : Nat) (hd1 : delim ≠ DQ) (hd2 : isNl delim = fal
 
 example : csvRowOk [(false, [32, 97]), (true, [34, 44]), (false, [])] = true := by decide
 
+/-- … and it does not matter how the written lines are framed when they reach the reader: with or
+without their `\n` / `\r\n` (iterating an open file, `splitlines(keepends=True)`), with blank
+lines between records or at the end — whatever is delivered, if stripping the terminators and
+dropping the empty lines gives the written lines, the table comes back -/
+theorem csv_roundtrip_any_framing (delim : Nat) (hd1 : delim ≠ DQ) (hd2 : isNl delim = false) (hasHeader : Bool)
+    (rows : List (List (Bool × Text))) (hok : ∀ r ∈ rows, csvRowOk r = true) (delivered : List Text)
+    (hdel : (delivered.map rstripNl).filter (· ≠ []) = rows.map (csvWriteRow delim)) :
+    csvReaderFix (excel delim) hasHeader delivered =
+      match rows.map (·.map (·.2)) with
+      | [] => .ok (none, [])
+      | first :: rest => if hasHeader then .ok (some first, rest) else .ok (none, first :: rest) :=
+  csv_roundtrip_framing' delim hasHeader rows hok hd1 hd2 delivered hdel
+
+/-- e.g. `a,b\r\n`, a blank `\r\n`, `c\n`, a blank `\n`, an empty string -/
+example : (([[97, 44, 98, 13, 10], [13, 10], [99, 10], [10], []] : List Text).map rstripNl).filter (· ≠ [])
+    = [[(false, [97]), (false, [98])], [(false, [99])]].map (csvWriteRow 44) := by decide
+
 /-- the code as it stands: additionally no written line may begin or end with white space, and
 an input without records raises StopIteration.
 theorem csv_roundtrip_full : csvReaderCur … = rows   -- FALSE, see the counterexamples -/
